@@ -28,6 +28,13 @@ __CPROVER_assigns(*prev_instring__r, *prev_escaped__r)
 __CPROVER_ensures(1)
 ;
 #include "gen/GetStringBits.inc"
+/* libc memcpy by contract: SkipContainer's tail copies the last len-pos < 64 bytes into a zeroed stack buffer; the copied
+ * bytes themselves are irrelevant for the bounds claims (they are re-read through GetStringBits / the block load) */
+void *memcpy(void *d, const void *s, size_t n)
+__CPROVER_requires(__CPROVER_w_ok(d, n) && __CPROVER_r_ok(s, n))
+__CPROVER_assigns(__CPROVER_object_upto(d, n))
+__CPROVER_ensures(__CPROVER_return_value == d)
+;
 #include "gen/SkipContainer.inc"
 #endif
 
